@@ -110,6 +110,12 @@ def run_profile(spec, tier, seed, debug, lean_ok, violations, stats):
         # already explained by an oracle-detected violation on this very case?
         if spec.oracle(c, impl[i]):
             continue
+        # a disagreement of the bulk run that does not reproduce when the case is re-run on its own (three times) is a
+        # truncated / timed-out bulk run on a loaded machine, not a property of the code: counted, not reported
+        if all(E.first_diff(E.run_cases(exe, [c], timeout=300)[0], E.run_cases(E.model_exe(), [c], timeout=300)[0]) is None
+               for _ in range(3)):
+            stats["transient_disagreements_not_reproduced"] = stats.get("transient_disagreements_not_reproduced", 0) + 1
+            continue
         def still(cc):
             a = E.run_cases(exe, [cc], timeout=120)[0]
             b = E.run_cases(E.model_exe(), [cc], timeout=120)[0]
@@ -178,6 +184,7 @@ def main(spec, argv=None):
         "samples": stats.get("samples", []),
         "traces_validated_against_impl": stats.get("evaluations", 0),
         "disagreements_checked": stats.get("disagreements", 0),
+        "transient_disagreements_not_reproduced": stats.get("transient_disagreements_not_reproduced", 0),
         "op_lines": stats.get("op_lines", 0),
         "distribution": stats.get("distribution", {}),
         "harness_build_s": stats.get("build_s"),
